@@ -636,6 +636,11 @@ def _contains(token: Token, left: object, right: object) -> bool:
         return False
     if isinstance(left, str):
         return str(right) in left
+    if isinstance(left, (list, tuple)):
+        # Liquid equality, where `true` is not equal to `1`.
+        return any(_eq(item, right) for item in left)
+    if isinstance(left, range) and isinstance(right, bool):
+        return False
     if isinstance(left, Collection):
         try:
             return right in left
